@@ -264,6 +264,45 @@ def check_tlwe_op(chk, v, name, spec):
     chk.vcount(vn, "R4.tlwe_operations")
 
 
+def extraction_by_interpretation(chk, v, f, why):
+    """-> None or a witness (k, N, index, position)"""
+    from sa import concrete, symexec
+    res, x, index, params, rparams = [p["n"] for p in f.params]
+    N, K, IDX = P(rparams, "N"), P(rparams, "k"), sym.sym(index)
+    effs = symexec.run_function(v, f, hooks=summ.LOCAL_HELPERS)[0]
+    at = lambda t: ("init", concrete.lvalue_location(t, {}))
+    for kv in (1, 2, 3):
+        for nv in (1, 2, 3, 4):
+            for ix in range(nv):
+                st = concrete.PolyState()
+
+                def h(kind, xx, env):
+                    if kind in ("local", "store"):
+                        st.assign(xx, env)
+                    elif kind in ("call", "asm", "unknown", "alloc", "delete"):
+                        if kind == "call" and xx.get("noreturn"):
+                            return None
+                        raise concrete.NotEvaluable("%s at line %s" % (kind, xx.get("l")))
+                    return None
+                try:
+                    concrete.interpret(effs, {N: nv, K: kv, IDX: ix, P(params, "n"): kv * nv}, h, on_segment=st.segment)
+                except concrete.NotEvaluable as e:
+                    chk.broken("tLweExtractLweSampleIndex: %s; by interpretation: %s" % (why, e))
+                for i_ in range(kv):
+                    for j_ in range(nv):
+                        got = st.read(concrete.lvalue_location(sym.idx(P(res, "a"), I(i_ * nv + j_)), {}))
+                        src = at(sym.idx(sym.fld(sym.idx(P(x, "a"), I(i_)), "coefsT"), I((ix - j_) % nv)))
+                        want = {(src,): 1 if j_ <= ix else -1}
+                        if got is None or {m: c % (1 << 32) for m, c in got.items() if c % (1 << 32)} != {m: c % (1 << 32) for m, c in want.items()}:
+                            return "with k = %d, N = %d, index = %d: mask coefficient %d (component %d, position %d) is %s, expected %s%s" % (
+                                kv, nv, ix, i_ * nv + j_, i_, j_, "not a number" if got is None else concrete.show_poly(got, 3),
+                                "+" if j_ <= ix else "-", concrete.show_atom(src))
+                gb = st.read(concrete.lvalue_location(P(res, "b"), {}))
+                if gb != {(at(sym.idx(sym.arrow(P(x, "b"), "coefsT"), I(ix))),): 1}:
+                    return "with k = %d, N = %d, index = %d: b is %s" % (kv, nv, ix, "not a number" if gb is None else concrete.show_poly(gb, 3))
+    return None
+
+
 def check_extraction(chk, v, rule="R5"):
     vn = v.name
     f = v.fn("tLweExtractLweSampleIndex")
@@ -278,15 +317,17 @@ def check_extraction(chk, v, rule="R5"):
     facts = [IDX, sym.sub(sym.sub(N, I(1)), IDX), sym.sub(N, I(1))]       # 0 <= index <= N-1
     infos = []
     pieces2 = []
+    shape = []
     for p in mask:
         if len(p["loops"]) != 2:
-            problems.append("mask statement at line %s is not in an (i, j) nest" % p["line"])
+            shape.append("mask statement at line %s is not in an (i, j) nest" % p["line"])
             continue
         il, jl = p["loops"]
         i, j = il["var"], jl["var"]
         within = sym.sub(p["lv"][2], sym.mul(i, N))       # position inside component i's block of N coefficients
-        if sym.contains(within, i):
-            chk.broken("tLweExtractLweSampleIndex: destination index %s is not i*N + (a term of the inner loop)" % sym.show(p["lv"][2]))
+        if sym.contains(within, i) or p["op"] != "=" or sym.contains(p["val"], P(res, "a")):
+            shape.append("statement at line %s on index %s is not `a[i*N + (a term of the inner loop)] = source`" % (p["line"], sym.show(p["lv"][2])))
+            continue
         if not summ.visits(il, ZERO, K):
             problems.append("component loop covers [%s %s %s), expected [0,k)" % (sym.show(il["lo"]), il["cmp"], sym.show(il["hi"])))
         src_arr = sym.fld(sym.idx(P(x, "a"), i), "coefsT")
@@ -295,15 +336,23 @@ def check_extraction(chk, v, rule="R5"):
         q["val"] = sym.subst(p["val"], {src_arr: ("sym", "$in")})
         q["loops"] = [jl]
         pieces2.append(q)
-    if not problems:
+    okmsg = ""
+    if not problems and not shape:
         ok, detail, infos = pam.check_map(pieces2, ("sym", "$out"), ("sym", "$in"), N, -1, IDX, facts, want_op="=")
         if ok is None:
-            chk.broken("tLweExtractLweSampleIndex: %s" % detail)
-        if not ok:
+            shape.append(detail)
+        elif not ok:
             problems.append(detail)
-    if len(bst) != 1 or bst[0]["op"] != "=" or bst[0]["val"] != sym.idx(sym.arrow(P(x, "b"), "coefsT"), IDX):
+    if not shape and (len(bst) != 1 or bst[0]["op"] != "=" or bst[0]["val"] != sym.idx(sym.arrow(P(x, "b"), "coefsT"), IDX)):
         problems.append("b is not x->b[index]: %s" % [summ.show_piece(p) for p in bst])
-    chk.require(not problems, rule, key, where=f.where, ok="; ".join("%s<-%s%s" % (i["range"], "-" if i["sign"] < 0 else "+", i["src"]) for i in infos)
+    if shape:
+        # the mask is not written by element statements in an (i, j) nest (a reversed copy, a separate negation pass, ...): the
+        # function is interpreted for k in 1..3, N in 1..4 and every index, with the sample's coefficients as indeterminates
+        wit = extraction_by_interpretation(chk, v, f, "; ".join(shape))
+        if wit:
+            problems.append(wit)
+        okmsg = "interpreted for k in 1..3, N in 1..4, every index: a[i*N+j] = (+/-) a_i[(index-j) mod N], b = b[index]"
+    chk.require(not problems, rule, key, where=f.where, ok=okmsg or "; ".join("%s<-%s%s" % (i["range"], "-" if i["sign"] < 0 else "+", i["src"]) for i in infos)
                 + "; b = b[index]", bad="; ".join(problems)[:500], variant=vn, data={"pieces": infos})
     # the index-free wrapper uses index 0
     g = v.fn("tLweExtractLweSample")
